@@ -43,16 +43,34 @@ def field_of_self(fn, operand):
     return None
 
 
+def controls(ck):
+    """the detectors must report the derived Clone of the laundering control struct and accept its repaired twin"""
+    import core
+    fx = core.fixture_facts()
+    pr = core.Probe()
+    analyse(pr, fx, ("vfix",), floor=0)
+    ck.control("R10.1", "PosLaundering::intern+NegLaundering::intern (transmutes enumerated)",
+               len(pr.extra.get("region_only_transmutes", [])) == 2)
+    ck.control("R10.2a", "PosLaundering#derived-clone", pr.fired(r"^R10\.2@PosLaundering#derived-clone$"))
+    ck.control("R10.2a", "NegLaundering (hand-written rebuilding Clone)", pr.fired(r"NegLaundering"), expect=False)
+
+
 def run(ck, facts, tier):
     facts.require_crates(list(SCOPE))
+    controls(ck)
+    analyse(ck, facts, SCOPE, floor=2)
+    store_clone_rule(ck, facts)
+
+
+def analyse(ck, facts, scope, floor):
     sites = []
     for fn in facts.fns.values():
-        if fn.crate not in SCOPE:
+        if fn.crate not in scope:
             continue
         for bi, si, s in region_only_transmutes(fn):
             sites.append((fn, bi, si, s))
     ck.extra["region_only_transmutes"] = ["%s (%s:%s)" % (f.name, f.file, s[3]) for f, _, _, s in sites]
-    ck.floor("R10.1", "lifetime-laundering transmutes in sophia_inmem/sophia_api", len(sites), 2)
+    ck.floor("R10.1", "lifetime-laundering transmutes in sophia_inmem/sophia_api", len(sites), floor)
     audited = 0
     for fn, bi, si, s in sites:
         dest = s[1]
@@ -65,7 +83,6 @@ def run(ck, facts, tier):
         else:
             ck.bad("R10.1", "R10.1@%s#unaudited-transmute" % fn.name,
                    "lifetime-laundering transmute in a function that matches none of the audited shapes", "%s:%s" % (fn.file, s[3]))
-    store_clone_rule(ck, facts)
 
 
 def rule_ensure_owned(ck, fn, bi, s):
